@@ -250,9 +250,34 @@ def run(ctx):
                                          poly_trend=pb.ps["poly_trend"])
             hist = []
             for step in range(int(rng.integers(3, 8))):
-                op = str(rng.choice(["other-lib", "rejection", "failed", "posterior-extreme", "same"]))
+                op = str(rng.choice(["other-lib", "rejection", "failed", "posterior-extreme", "same", "same-data-other-unit"]))
                 try:
-                    if op == "other-lib":
+                    if op == "same-data-other-unit":
+                        # the same observations quoted in another velocity unit, through the same sampler and prior objects:
+                        # conversions worked out for that unit must not be remembered for the next call
+                        import copy as _copy
+                        d2 = _copy.deepcopy(pb.dspec)
+                        nu_ = str(rng.choice([x for x in session.gen.VEL_UNITS if x != d2["unit"]]))
+                        for s_ in d2["surveys"]:
+                            f_ = session.gen.conv(1.0, s_["unit"], nu_)
+                            fe_ = session.gen.conv(1.0, s_.get("err_unit", s_["unit"]), nu_)
+                            s_["rv"] = [v_ * f_ for v_ in s_["rv"]]
+                            s_["err"] = [v_ * fe_ for v_ in s_["err"]]
+                            s_["unit"] = s_["err_unit"] = nu_
+                        d2["unit"] = nu_
+                        other_unit = np.asarray(j.marginal_ln_likelihood(session.gen.build_data(d2), pb.lib,
+                                                                         in_memory=bool(rng.random() < 0.5)), dtype=float)
+                        # what this sampler already worked out for the first unit must not answer for the second: the values are
+                        # the base values shifted by the Jacobian n ln(unit ratio) (loose tolerance: this is not C07's fine comparison)
+                        n_ep_ = len(pb.lin.t)
+                        want_ = base - n_ep_ * np.log(session.gen.conv(1.0, pb.dspec["unit"], nu_))
+                        okf = np.isfinite(want_) & np.isfinite(other_unit)
+                        if np.any(okf) and np.max(np.abs(other_unit[okf] - want_[okf]) / (1 + np.abs(want_[okf]))) > 1e-5:
+                            ctx.violation("value-depends-on-call-history", "the same data quoted in %s after %s on the same TheJoker: values "
+                                          "are off by up to %.3g from the base values shifted by the Jacobian"
+                                          % (nu_, hist, float(np.max(np.abs(other_unit[okf] - want_[okf])))), dict(desc, history=hist))
+                            break
+                    elif op == "other-lib":
                         j.marginal_ln_likelihood(pb.data, other.lib, in_memory=bool(rng.random() < 0.5))
                     elif op == "rejection":
                         j.rejection_sample(pb.data, pb.lib, n_linear_samples=int(rng.choice([1, 4])),
